@@ -12,16 +12,28 @@ import (
 // reported by the helper that makes it), so a count made on the hit branch is not combined with the
 // failure exit of the miss branch.
 func c27NoLeakOnError(c *core.Ctx) {
+	refc := cpState + ".refCounter"
+	writes := c27NewEffect(cpState+".opened", func(f *core.FuncInfo, a assignment) (ast.Expr, bool) {
+		ix, ok := ast.Unparen(a.LHS).(*ast.IndexExpr)
+		if !ok || fieldNameOf(f, ix.X) != refc {
+			return nil, false
+		}
+		return ix.Index, true
+	})
+	// the opening function is located by what it does (c27Openers), not by its name
+	var openers []c27Opener
 	c.Clause("C27.open.error", func() {
-		open := c.Fn("kvdb/cachedproducer.openDB")
-		refc := cpState + ".refCounter"
-		writes := c27NewEffect(cpState+".opened", func(f *core.FuncInfo, a assignment) (ast.Expr, bool) {
-			ix, ok := ast.Unparen(a.LHS).(*ast.IndexExpr)
-			if !ok || fieldNameOf(f, ix.X) != refc {
-				return nil, false
-			}
-			return ix.Index, true
-		})
+		openers = c27Openers(c.P, writes)
+		c.Need(len(openers) > 0, "a function of the cachedproducer package that opens the wrapped producer's database")
+	})
+	for _, o := range openers {
+		open := o.f
+		c.Clause("C27.open.error", func() { c27NoLeakIn(c, open, writes) })
+	}
+}
+
+func c27NoLeakIn(c *core.Ctx, open *core.FuncInfo, writes *c27Effect) {
+	{
 		sites, bad := writes.sites(open, 2)
 		if bad != "" {
 			c.Undecided("a failed open is not counted", "T7 Pairing", open.Pos(), "cannot tell on which paths openDB updates the reference counter: "+bad)
@@ -50,5 +62,5 @@ func c27NoLeakOnError(c *core.Ctx) {
 				"the reference counter is increased on a path that then fails to open the database: the leaked reference keeps the underlying database open after the last Close and hides one surplus Close ("+open.DescribePath(path)+")")
 		}
 		c.ExpectAtLeast("refCounter updates in openDB", len(sites), 1)
-	})
+	}
 }
